@@ -136,6 +136,13 @@ type reg struct {
 	gen     int8 // generation of the handler that must fire
 	repl    bool // the handler was exchanged by Replace since the name was registered
 	seq     int8 // registration order (built-ins first)
+	// dup: the name was registered a second time without Replace while it was
+	// registered. Weakest reading: any of the handlers in gens may fire (one of
+	// them, or two different ones); constraints that involve the name are not
+	// checked. x2/y2 = Before/After of the second registration (tags only).
+	dup    bool
+	gens   uint16
+	x2, y2 int8
 }
 
 type model struct {
@@ -151,7 +158,7 @@ type model struct {
 func initialModel(p *pipeCfg) model {
 	var m model
 	for i := 0; i < p.nb; i++ {
-		m.r[i] = reg{on: true, builtin: true, x: -1, y: -1, seq: int8(i)}
+		m.r[i] = reg{on: true, builtin: true, x: -1, y: -1, seq: int8(i), x2: -1, y2: -1}
 	}
 	m.next = int8(p.nb)
 	return m
@@ -175,20 +182,34 @@ func (m *model) apply(p *pipeCfg, o Op, gen int8) {
 	}
 	switch o.K {
 	case kRegister:
-		m.r[o.N] = reg{on: true, x: o.X, y: o.Y, gen: gen, seq: m.next}
+		if r := &m.r[o.N]; r.on {
+			// duplicate registration
+			if !r.dup {
+				r.gens = 1 << uint(r.gen)
+			}
+			r.dup, r.x2, r.y2 = true, o.X, o.Y
+			r.gens |= 1 << uint(gen)
+			r.gen = gen
+			break
+		}
+		m.r[o.N] = reg{on: true, x: o.X, y: o.Y, gen: gen, seq: m.next, x2: -1, y2: -1}
 		m.next++
 	case kReplace:
 		if m.r[o.N].on {
 			m.r[o.N].gen = gen
 			m.r[o.N].repl = true
+			m.r[o.N].gens |= 1 << uint(gen)
 		} else {
-			m.r[o.N] = reg{on: true, x: -1, y: -1, gen: gen, seq: m.next}
+			m.r[o.N] = reg{on: true, x: -1, y: -1, gen: gen, seq: m.next, x2: -1, y2: -1}
 			m.next++
 		}
 	case kRemove:
 		if r := m.r[o.N]; r.on {
 			m.reborn[o.N], m.ghost[o.N] = 0, 0
-			for _, t := range []int8{r.x, r.y} {
+			if !r.dup {
+				r.x2, r.y2 = -1, -1
+			}
+			for _, t := range []int8{r.x, r.y, r.x2, r.y2} {
 				if t >= 0 && t != p.iStar() && t != o.N {
 					m.ghost[o.N] |= 1 << uint(t)
 				}
@@ -210,6 +231,9 @@ func (m *model) appendKey(p *pipeCfg, b []byte) []byte {
 				fl |= 2
 			}
 			b = append(b, byte('a'+i), byte('b'+r.x), byte('b'+r.y), fl)
+			if r.dup {
+				b = append(b, '!', byte('b'+r.x2), byte('b'+r.y2), byte(r.gens), byte(r.gens>>8))
+			}
 			if m.reborn[i] != 0 {
 				b = append(b, '^', byte(m.reborn[i]), byte(m.reborn[i]>>8))
 			}
@@ -229,7 +253,7 @@ func (m *model) graph(p *pipeCfg, withBuiltinOrder bool) (g graph) {
 	if withBuiltinOrder {
 		last := int8(-1)
 		for i := int8(0); int(i) < p.nb; i++ {
-			if m.r[i].on && m.r[i].builtin {
+			if m.r[i].on && m.r[i].builtin && !m.r[i].dup {
 				if last >= 0 {
 					g[last] |= 1 << uint(i)
 				}
@@ -249,6 +273,14 @@ func (m *model) graph(p *pipeCfg, withBuiltinOrder bool) (g graph) {
 		if r.y >= 0 && r.y != star && m.r[r.y].on {
 			g[r.y] |= 1 << uint(i)
 		}
+		if r.dup {
+			if r.x2 >= 0 && r.x2 != star && m.r[r.x2].on {
+				g[i] |= 1 << uint(r.x2)
+			}
+			if r.y2 >= 0 && r.y2 != star && m.r[r.y2].on {
+				g[r.y2] |= 1 << uint(i)
+			}
+		}
 	}
 	return
 }
@@ -256,10 +288,10 @@ func (m *model) graph(p *pipeCfg, withBuiltinOrder bool) (g graph) {
 // edgeKind: 'B' = a registered Before(b); 'A' = b registered After(a); 'D' = both.
 func (m *model) edgeKind(p *pipeCfg, a, b int) string {
 	k := ""
-	if m.r[a].on && int(m.r[a].x) == b {
+	if m.r[a].on && (int(m.r[a].x) == b || (m.r[a].dup && int(m.r[a].x2) == b)) {
 		k = "B"
 	}
-	if m.r[b].on && int(m.r[b].y) == a {
+	if m.r[b].on && (int(m.r[b].y) == a || (m.r[b].dup && int(m.r[b].y2) == a)) {
 		if k != "" {
 			return "D"
 		}
@@ -529,7 +561,17 @@ func (a *alphabet) ops(p *pipeCfg, m *model, out []Op) []Op {
 	}
 	for _, n := range a.regN {
 		if m.r[n].on {
-			continue // registering an existing name again without Replace: outside the alphabet
+			// registering a registered name again without Replace (gorm warns
+			// "duplicated callback"): once per name, plain Register(n) only (a duplicate
+			// that brings its own Before/After has no reading under which the other
+			// callbacks' constraints stay well defined)
+			if m.r[n].dup {
+				continue
+			}
+			if ok, _ := use(n, m.usedU); ok {
+				out = append(out, Op{K: kRegister, N: n, X: -1, Y: -1})
+			}
+			continue
 		}
 		ok, u0 := use(n, m.usedU)
 		if !ok {
